@@ -734,10 +734,12 @@ func (db *DB) doFollowLeaders(stream string, tables []*table, offsets []common.O
 		for _, source := range sources {
 			earliestOffsetsBySource[source] = nil
 		}
-		for _, os := range offsets {
-			for source, offset := range os {
-				earliestOffset := earliestOffsetsBySource[source]
-				if earliestOffset == nil || earliestOffset.After(offset) {
+		for _, source := range sources {
+			// A table that has nothing persisted from this source yet (nil offset)
+			// needs everything the source has, so it makes the earliest offset nil.
+			for i, os := range offsets {
+				offset := os[source]
+				if i == 0 || earliestOffsetsBySource[source].After(offset) {
 					earliestOffsetsBySource[source] = offset
 				}
 			}
